@@ -981,12 +981,12 @@ pub fn exec_case(case: &RCase) -> CaseReport {
 fn rop_strategy(universe: u8, maxw: u8, with_fetch: bool) -> impl Strategy<Value = ROp> {
     let k = prop_oneof![3 => Just(0u8), 2 => 0..universe];
     prop_oneof![
-        8 => (k.clone(), 1..=maxw, prop::bool::weighted(0.3)).prop_map(|(k, w, hold)| ROp::Insert { k, w, hold }),
+        8 => (k.clone(), 0..=maxw, prop::bool::weighted(0.3)).prop_map(|(k, w, hold)| ROp::Insert { k, w, hold }),
         3 => (k.clone(), prop::bool::weighted(0.3)).prop_map(|(k, hold)| ROp::Remove { k, hold }),
         8 => (k.clone(), prop::bool::weighted(0.5)).prop_map(|(k, hold)| ROp::Get { k, hold }),
         1 => k.clone().prop_map(|k| ROp::Contains { k }),
         1 => k.clone().prop_map(|k| ROp::Touch { k }),
-        4 => (k.clone(), 1..=maxw, prop::bool::weighted(0.3)).prop_map(move |(k, w, hold)| if with_fetch { ROp::Fetch { k, w, hold } } else { ROp::Get { k, hold } }),
+        4 => (k.clone(), 0..=maxw, prop::bool::weighted(0.3)).prop_map(move |(k, w, hold)| if with_fetch { ROp::Fetch { k, w, hold } } else { ROp::Get { k, hold } }),
         1 => Just(ROp::Clear),
         1 => (0..=maxw + 2).prop_map(|c| ROp::Resize { c }),
         1 => Just(ROp::EvictAll),
